@@ -634,3 +634,16 @@ Proof.
   destruct Hg as (Hqr & Hi & _). unfold qr_set in Hqr. subst m.
   exists b0, b1, b2, b3, tl. split; auto. split; [congruence|]. split; [congruence|auto].
 Qed.
+
+Theorem tcp_answer_question_on_the_wire tab q qwire timeout it wevs stream revs now m wire t sent sk :
+  tcp (lookup tab) q qwire timeout it wevs stream revs now = Ok (m, wire, t, sent, sk) ->
+  wire_question_section wire = Some (m_question m) /\ genuine q m.
+Proof.
+  intros H. apply tcp_returns_genuine in H. destruct H as (Hg & _ & Hp & _).
+  split; auto.
+  apply from_wire_ok_wellformed in Hp. destruct Hp as (Hsh & He & Hm & _).
+  destruct (lookup_checked tab wire He) as [_ Hq]. unfold question_ok in Hq.
+  rewrite He, Hsh in Hq.
+  destruct (wire_question_section wire) as [qs|]; [|discriminate].
+  apply qents_same_eq in Hq. subst. reflexivity.
+Qed.
